@@ -229,10 +229,13 @@ def Inter6Palette.new (c0 c1 : Nat) : Inter6Palette :=
 def Inter6Palette.blend7 (p : Inter6Palette) (pixel : Nat) : Nat :=
   min (CF32.toNatSat (CF32.fadd (CF32.fmul pixel p.factor1) p.add1) 255) 7
 
+/-- the palette value of interpolation step `j` as `closest` computes it: `j as f32 * factor2 + c1` -/
+def Inter6Palette.stepValue (p : Inter6Palette) (j : Nat) : Nat := CF32.fadd (CF32.fmul (CF32.ofNat j) p.factor2) p.c1
+
 /-- `Inter6Palette::closest(pixel)`: (`INDEX_MAP[blend7]`, `blend7 as f32 * factor2 + c1`, `|pixel − closest|`) -/
 def Inter6Palette.closest (p : Inter6Palette) (pixel : Nat) : Nat × Nat × Nat :=
   let b := p.blend7 pixel
-  let closest := CF32.fadd (CF32.fmul (CF32.ofNat b) p.factor2) p.c1
+  let closest := p.stepValue b
   let error := CF32.fsub pixel closest
   (INDEX_MAP.getD b 0, closest, error % CF32.signBit)
 
@@ -469,11 +472,37 @@ def intendedA (mode : PaletteMode) (k : Nat) : Nat := if mode = .p3 ∧ k = 3 th
 /-- RGBA of entry `k` (BC1) -/
 def intendedColour (mode : PaletteMode) (e : C565 × C565) (k : Nat) : List Nat := intendedRgb mode e k ++ [intendedA mode k]
 
+/-- the weights `(w0, w1)` of palette entry `k`: the entry is `(w0·c0 + w1·c1)/(w0 + w1)` (entry 3 of P3 is the filler
+`c0` of `Palette::new_p3`, never selected) -/
+def paletteWeights (mode : PaletteMode) (k : Nat) : Nat × Nat :=
+  match mode, k with
+  | _, 0 => (1, 0)
+  | _, 1 => (0, 1)
+  | .p4, 2 => (2, 1)
+  | .p4, _ => (1, 2)
+  | .p3, 2 => (1, 1)
+  | .p3, _ => (1, 0)
+
 /-- the value in [0, 1] index `k` of a BC4-type palette stands for: endpoints `e0/m`, `e1/m` (`m = 255`: the bytes;
 `m = 254`: the SNORM levels `0..254` shown as `(v + 1)/2`), `six` = the eight-value palette -/
 def intended4 (six : Bool) (e0 e1 m k : Nat) : Rat := BcSpec.bc4Entry six k e0 e1 m
 
 /-- the SNORM level `0..254` of an endpoint byte (`-128` and `-127` are both level 0) -/
 def levelOfByte (snorm : Bool) (c : Nat) : Nat := if snorm then BcSpec.snormU c else c
+
+/-- the exact value of a binary32 pattern `v` that is finite, non-negative and has a negative exponent (every palette
+value: `0 ≤ v < 2^24 ulp`), as a fraction of integers: `mant · 2^expo = mant / 2^(−expo)`
+(`Proofs/EncBc15Palette.f32Frac_spec`: this is `CF32.toRat v`) -/
+def f32Frac (v : Nat) : Nat × Nat := (CF32.mant v, 2 ^ (-(CF32.expo v)).toNat)
+
+/-- the side condition of `f32Frac` -/
+def f32Small (v : Nat) : Bool := decide (v < CF32.posInf) && decide (CF32.expo v < 0)
+
+/-- `⌊255·v + 1/2⌋`: the nearest 8-bit UNORM value of the f32 `v` (an exact tie goes up, as in `BcSpec.rnd`) -/
+def f32Nearest8 (v : Nat) : Nat := (510 * (f32Frac v).1 + (f32Frac v).2) / (2 * (f32Frac v).2)
+
+/-- `|v − n/d| ≤ 2^-22` (four units in the last place of 1.0) -/
+def f32Within22 (v n d : Nat) : Bool :=
+  decide (absDiff ((f32Frac v).1 * d) (n * (f32Frac v).2) * 4194304 ≤ d * (f32Frac v).2)
 
 end Dds.Enc15
